@@ -19,8 +19,10 @@ TrRead == Ev.ev = "read" /\ Read(Ev.out, Ev.chunk) /\ Obs(Ev.out) /\ Ev.nbytes =
 TrWireKeys == Ev.ev = "wirekeys" /\ ~Ev.err /\ ~Ev.panic /\ WireKeys(Ev.k) /\ Ev.nbytes = Ev.binsize
 TrSwitch == Ev.ev = "switch" /\ Switch(Ev.a, Ev.out, Ev.order) /\ Obs(Ev.out)
 TrRefresh == Ev.ev = "refresh" /\ Refresh(Ev.a, Ev.out, Ev.order) /\ Obs(Ev.out)
+TrPoly == Ev.ev = "poly" /\ Poly(Ev.a, Ev.out, Ev.p) /\ Obs(Ev.out)
+TrLin == Ev.ev = "lin" /\ Lin(Ev.a, Ev.out, Ev.m) /\ Obs(Ev.out)
 TraceNext == /\ l <= Len(Trace) /\ l' = l + 1
-             /\ (TrNew \/ TrEnc \/ TrAdd \/ TrMul \/ TrRot \/ TrWrite \/ TrRead \/ TrWireKeys \/ TrSwitch \/ TrRefresh)
+             /\ (TrNew \/ TrEnc \/ TrAdd \/ TrMul \/ TrRot \/ TrWrite \/ TrRead \/ TrWireKeys \/ TrSwitch \/ TrRefresh \/ TrPoly \/ TrLin)
 TraceInit == Init /\ l = 1 /\ TLCSet(1, 1)
 TraceSpec == TraceInit /\ [][TraceNext]_tvars
 Progress == TLCSet(1, IF TLCGet(1) > l THEN TLCGet(1) ELSE l)
